@@ -78,14 +78,61 @@ def _fixed_profiles(draw):
     return spec
 
 
+@st.composite
+def _repeating(draw):
+    """intervals that look alike: the same price curve in every interval, no discounting, equal interval lengths -
+    cost vector and bounds of all interval problems coincide; what differs are the take volumes of a contract per
+    interval (right-hand sides only) or a capacity given per interval"""
+    m = draw(st.sampled_from([3, 4, 6]))
+    k = draw(st.integers(2, 4))
+    T = m * k
+    g = {"start": draw(st.sampled_from(["2021-01-30 00:00", "2021-06-15 06:00"])), "T": T, "freq": "h", "mtu": "h",
+         "tz": draw(st.sampled_from([None, "UTC"]))}
+    def tiled():
+        return draw(st.lists(gen.dyadic(0, 12), min_size=m, max_size=m)) * k
+    prices = {"p0": tiled(), "psell": tiled(), "pbuy": [16.0] * T}
+    cap = 4.0
+    takes_hi = [[j * m, (j + 1) * m, cap * m * draw(st.sampled_from([0.25, 0.5, 0.75, 1.0]))] for j in range(k)]
+    takes_lo = [[j * m, (j + 1) * m, cap * m * draw(st.sampled_from([0.0, 0.0, 0.125, 0.25]))] for j in range(k)]
+    c = {"type": "contract", "name": "c", "nodes": ["n0"], "price": "p0", "min_cap": 0.0, "max_cap": cap,
+         "extra_costs": 0.0, "wacc": 0.0, "max_take": takes_hi, "min_take": takes_lo if draw(st.booleans()) else None}
+    assets = [c,
+              {"type": "simple", "name": "sell", "nodes": ["n0"], "price": "psell", "min_cap": -8.0, "max_cap": 0.0, "extra_costs": 0.0, "wacc": 0.0},
+              {"type": "simple", "name": "buy", "nodes": ["n0"], "price": "pbuy", "min_cap": 0.0, "max_cap": 8.0, "extra_costs": 0.0, "wacc": 0.0}]
+    return {"grid": g, "prices": prices, "assets": assets, "split": "%dh" % m, "category": "uncoupled", "shape": "repeating"}
+
+
+@st.composite
+def _daily_dst(draw):
+    """steps of unequal length: daily steps across a daylight-saving switch, split into blocks of days / weeks"""
+    tz, date = draw(st.sampled_from([("CET", "2021-03-2%d" % d) for d in (5, 6, 7)] + [("Europe/London", "2021-03-26"),
+                                    ("America/New_York", "2021-03-12"), ("CET", "2021-10-29"), ("America/New_York", "2021-11-05")]))
+    T = draw(st.integers(5, 14))
+    g = {"start": date + " 00:00", "T": T, "freq": "d", "mtu": draw(st.sampled_from(["h", "d"])), "tz": tz}
+    nodes = ["n0", "n1"][:draw(st.integers(1, 2))]
+    prices = {"p%d" % i: draw(gen.price_series(T)) for i in range(2)}
+    cx = gen.Cx(g, nodes, prices)
+    assets = []
+    for i in range(draw(st.integers(1, 3))):
+        cls = draw(st.sampled_from(["simple", "simple", "transport"] if len(nodes) > 1 else ["simple"]))
+        a = gen.draw_asset(draw, cx, cls, "a%d" % i)
+        if a["type"] == "exttransport":
+            a["type"] = "transport"
+            a.pop("min_take", None); a.pop("max_take", None)
+        assets.append(a)
+    assets += gen.markets(cx, draw=draw)
+    return {"grid": g, "prices": cx.prices, "assets": assets, "split": draw(st.sampled_from(["2d", "3d", "7d", "W"])),
+            "category": "uncoupled", "shape": "daily_dst"}
+
+
 def strategy(tier):
-    return st.one_of(_strategy(), _strategy(), _strategy(), _strategy(), _fixed_profiles())
+    return st.one_of(_strategy(), _strategy(), _strategy(), _strategy(), _fixed_profiles(), _repeating(), _daily_dst())
 
 
 def check(spec):
     out = Outcome()
     out.label("category:" + spec["category"], "interval:" + spec["split"], "gap" if spec.get("gap") else None,
-              "fixed_profiles" if spec.get("profiles") else None)
+              "fixed_profiles" if spec.get("profiles") else None, ("shape:" + spec["shape"]) if spec.get("shape") else None)
     g = spec["grid"]
     if g.get("tz") and not (build._wall_ok(tl.end(g), g["tz"]) and build._wall_ok(tl.point(g, 0), g["tz"])):
         return out.drop("ambiguous_wall_time")     # pandas cannot build the interval range to such an end
